@@ -87,6 +87,37 @@ def ctx_mem_ops(r, n):
     return ops
 
 
+def join_tree(blocks):
+    """right-nested JOIN of a list of blocks in the case language"""
+    if len(blocks) == 1:
+        return blocks[0]
+    return "J %s %s" % (blocks[0], join_tree(blocks[1:]))
+
+
+def chiplet_boundary_programs():
+    """Programs whose chiplet rows sweep through 2^k - 1 while the chiplets dominate the trace length:
+    the last chiplet row is then followed directly by the padding row / the random row.
+    (a) memory rows last: one span of n loads;  (b) a kernel and no memory access: 7 syscalls (7 kernel ROM
+    rows) and h permutations;  (c) memory and kernel"""
+    cases = []
+    # MLOAD alone reads the address it finds on top of the stack (0 after the first read): one cycle, one memory row
+    for n in list(range(96, 116)) + list(range(212, 236)):
+        cases.append(gen_exec.case_line(2**32 - 1, [], [], "T 0 " + gen_exec.span(["mload"] * n)))
+    # MSTREAM: one cycle, two memory rows; a trailing MLOAD makes the count odd
+    for n in list(range(44, 62)):
+        for tail in ([], ["mload"]):
+            cases.append(gen_exec.case_line(2**32 - 1, [0] * 12 + [8], [], "T 0 " + gen_exec.span(["mstream"] * n + tail)))
+    kproc = "K " + gen_exec.span(["pad", "drop"])
+    for sc in (7, 15):
+        for h in range(0, 28):
+            root = join_tree(["Y 0"] * sc + [gen_exec.span(["hperm"] * h if h else ["noop"])])
+            cases.append(gen_exec.case_line(2**32 - 1, [1, 2, 3], [], "T 1 %s %s" % (kproc, root)))
+    for h in range(0, 12):
+        root = join_tree(["Y 0"] * 6 + [gen_exec.span(["pad", "mload", "drop"] + ["hperm"] * h)])
+        cases.append(gen_exec.case_line(2**32 - 1, [1, 2, 3], [], "T 1 %s %s" % (kproc, root)))
+    return cases
+
+
 class DomainProg(gen_exec.ProgGen):
     def small_span(self, maxn=8):
         return gen_exec.span(in_domain_ops(self.r, 1 + self.r.below(maxn)))
@@ -120,6 +151,8 @@ def run(rep, tier, rng):
     # spans whose cycle count is around 2^k - 1: no room for a HALT row before the random row
     for k in list(range(56, 64)) + list(range(118, 126)):
         cases.append(gen_exec.case_line(2**32 - 1, [1, 2, 3], [], "T 0 " + gen_exec.span(["noop"] * k)))
+    nb0 = len(cases)
+    cases += chiplet_boundary_programs()
     # expected-cycles hints and challenge seeds
     full = []
     for i, c in enumerate(cases):
@@ -141,6 +174,8 @@ def run(rep, tier, rng):
         dist["len=%s" % f["len"]] += 1
         L, clk, rg, ch = int(f["len"]), int(f["clk"]), int(f["range"]), int(f["chiplets"])
         lens.append((c, x, L, clk, rg, ch))
+        if ch - 1 > max(clk + 1, rg) and (ch & (ch - 1)) == 0:
+            dist["chiplet-rows-exactly-2^k-1"] += 1
         for key, what in (("main_bad", "a main transition constraint"), ("assert_bad", "a boundary assertion"),
                           ("aux_bad", "the auxiliary transition constraint"), ("auxassert_bad", "an auxiliary boundary assertion")):
             if f[key] != "0":
@@ -167,6 +202,8 @@ def run(rep, tier, rng):
         if x.startswith("OK") and " main_bad=0 " not in x:
             rep.violation("the processor accepts an operand outside the documented domain and produces a trace that violates the AIR",
                           {"kind": "search", "family": "airfull", "case": c, "impl": x, "class": "undefined-operand-trace"})
+    if dist["chiplet-rows-exactly-2^k-1"] < 3:
+        raise common.BuildError("C03 generator: the chiplet boundary programs no longer reach 2^k - 1 chiplet rows (%d hits)" % dist["chiplet-rows-exactly-2^k-1"])
     base.report_proof_failure(rep, "C03", pr, found)
     rep.coverage.update({
         "evaluations": len(full) + 40 + len(undefined), "distinct_nontrivial": len(set(full)),
